@@ -23,7 +23,8 @@ class RoundTrip(Harness):
         self.cls = cls; self.fmt = fmt; self.maxn = maxn
         self.name = f"C12.{cls}.{fmt}.n{maxn}"
         self.bounds = {"rows / items": f"1..{maxn}", "suffix": ["", ".gz", ".bz2", ".xz"], "options": "sep in {',', ';', tab}, header, encoding in {utf-8, latin-1}",
-                       "columns": "int64, float64 (with NaN), string" if cls == "DataFrame" else "text values"}
+                       "columns": "int64, float64 (with NaN), string" if cls == "DataFrame" else
+                                  "text values from a pool with CR LF, LF, quotes, delimiters, tab, non-ASCII (a lone CR is not representable by Python 3.12's csv writer, which leaves it unquoted: outside the claim)"}
         self.symbolic = ["cell values (opaque to the serializer models)"]; self.choice_dims = ["suffix", "sep", "header", "encoding"]
         self.goals = ["util.py:xopen", f"{'data_frame' if cls == 'DataFrame' else 'list_of_dicts'}.py:{cls}.write_{fmt}",
                       f"{'data_frame' if cls == 'DataFrame' else 'list_of_dicts'}.py:{cls}.read_{fmt}"]
@@ -51,9 +52,36 @@ class RoundTrip(Harness):
         else:
             items = []
             for i in range(n):
-                items.append([("k", choice(f"k{i}", ["x", "1"])), ("v", choice(f"v{i}", ["", "y"]))])
+                items.append([("k", choice(f"k{i}", ["x", "1"])), ("v", choice(f"v{i}", ["", "y", "c\r\nd", "l\nm;\"q\",\tz \u00e9"]))])
             obj = LoD(items)
         return {"obj": obj, "cls": self.cls, "fmt": self.fmt, "suffix": suffix, "wopts": w, "ropts": r}
+    def probes(self, inp):
+        # the serializers are contract models: aim the real-file observation at what the statement names (delimiters,
+        # quotes, newlines inside strings, Unicode, missing first values, numeric corners)
+        obj = inp["obj"]
+        if not isinstance(obj, Frame): return []
+        sep = dict((k, v) for k, v in inp["wopts"]).get("sep", ",")
+        pr = []
+        S = obj.cols["s"].cells; F = obj.cols["f"].cells; A = obj.cols["a"].cells
+        def first_is(ch): return z3.Or([z3.And(z3.UGE(c.n, 2), c.ch[1] == ord(ch), z3.Not(c.tail)) for c in S])
+        for label, ch in (("the delimiter", sep), ("a double quote", '"'), ("a line feed", "\n"), ("a carriage return", "\r"),
+                          ("a backslash", "\\"), ("a single quote", "'"), ("a space", " ")):
+            pr.append((f"string with {label} inside", first_is(ch)))
+        pr.append(("string starting with a space", z3.Or([z3.And(z3.UGE(c.n, 2), c.ch[0] == 0x20) for c in S])))
+        pr.append(("string with a character beyond the BMP", z3.Or([z3.And(z3.UGE(c.n, 1), z3.UGT(c.ch[0], 0xFFFF)) for c in S])))
+        pr.append(("long string (50+ characters)", z3.Or([c.tail for c in S])))
+        pr.append(("first string missing", S[0].is_empty()))
+        if len(S) > 1: pr.append(("first string missing, second present", z3.And(S[0].is_empty(), z3.Not(S[1].is_empty()))))
+        pr.append(("all strings missing", z3.And([c.is_empty() for c in S])))
+        pr.append(("NaN", z3.Or([z3.fpIsNaN(c) for c in F])))
+        pr.append(("all floats NaN", z3.And([z3.fpIsNaN(c) for c in F])))
+        pr.append(("infinite float", z3.Or([z3.fpIsInf(c) for c in F])))
+        pr.append(("negative zero", z3.Or([z3.And(z3.fpIsZero(c), z3.fpIsNegative(c)) for c in F])))
+        pr.append(("subnormal float", z3.Or([z3.fpIsSubnormal(c) for c in F])))
+        pr.append(("integral floats only", z3.And([z3.And(z3.Not(z3.fpIsNaN(c)), z3.Not(z3.fpIsInf(c)), c == z3.fpRoundToIntegral(z3.RTZ(), c)) for c in F])))
+        pr.append(("INT64_MIN", z3.Or([c == symx.INT64_MIN for c in A])))
+        pr.append(("INT64_MAX", z3.Or([c == 2**63 - 1 for c in A])))
+        return pr
     def conformance_ignore(self, real, pred):
         # dtypes / header-less column names depend on the real serializers; the concrete spec is evaluated on the real result
         return True
